@@ -183,6 +183,84 @@ def opRgbw (args impl : List String) : Verdict :=
     | _ => .badCase "rgbw"
   | _ => .badCase "rgbw"
 
+def natTriple (s : String) : Option (Nat × Nat × Nat) :=
+  match (s.splitOn ",").map String.toNat? with
+  | [some a, some b, some c] => some (a, b, c)
+  | _ => none
+
+/-- the documented contract of a conversion, checked on the implementation's own answer -/
+def convContract (c : Conv) (r g b : Nat) (a : Nat × Nat × Nat × Nat) : Option String :=
+  match c with
+  | .fixed v => if a = (r, g, b, v) then none else some "fixed value: rgb must be untouched"
+  | .subMin =>
+    let w := a.2.2.2
+    if a.1 + w = r ∧ a.2.1 + w = g ∧ a.2.2.1 + w = b ∧ w = min r (min g b) then none
+    else some "min subtraction: rgb+w must give the original with w the smallest channel"
+  | .ref _ _ _ =>
+    if a.1 ≤ r ∧ a.2.1 ≤ g ∧ a.2.2.1 ≤ b then none else some "reference colour: a channel exceeds the original"
+
+/-- one conversion object through set-up calls and conversions; the black-body colour of a temperature is taken from
+the implementation (libm is not modelled) and held to the clamping contract of the function -/
+def rgbwSeqGo : List String → List String → Conv → List String → Verdict
+  | [], [], _, tags => .ok tags.eraseDups
+  | [], _ :: _, _, _ => .fail "more answers than steps"
+  | st :: rest, impl, c, tags =>
+    let body := (st.drop 1).toString
+    match (st.take 1).toString with
+    | "s" => rgbwSeqGo rest impl c.useMin ("rgbwseq:min" :: tags)
+    | "o" => rgbwSeqGo rest impl c.turnOff ("rgbwseq:off" :: tags)
+    | "f" =>
+      match body.toNat? with
+      | some v => rgbwSeqGo rest impl (c.useFixed v) ("rgbwseq:fixed" :: tags)
+      | none => .badCase "rgbwseq f"
+    | "r" =>
+      match natTriple body with
+      | some (a, b, d) => rgbwSeqGo rest impl (c.useReference a b d) ("rgbwseq:ref" :: tags)
+      | none => .badCase "rgbwseq r"
+    | "t" =>
+      match f32Tok body, impl with
+      | some t, ans :: impl' =>
+        if (ans.take 1).toString ≠ "T" then .fail s!"step {st}: answer {ans}" else
+        match ((ans.drop 1).toString.splitOn ",").map String.toNat? with
+        | [some r, some g, some b, some r', some g', some b'] =>
+          let cached : Bool := match c with | .ref _ _ t0 => floatEq t0 t | _ => false
+          let tag := if cached then "rgbwseq:temp-cached" else "rgbwseq:temp"
+          let structural : Option String :=
+            match t with
+            | .nan => none
+            | _ =>
+              if (r, g, b) ≠ (r', g', b') then some "temperature outside 1000..40000 K must give the colour of the nearest bound"
+              else
+                let le66 : Bool := match t with | .fin q => q ≤ 6600 | .ninf => true | _ => false
+                let ge66 : Bool := match t with | .fin q => q ≥ 6600 | .pinf => true | _ => false
+                if le66 ∧ r ≠ 255 then some "red must be saturated up to 6600 K"
+                else if ge66 ∧ b ≠ 255 then some "blue must be saturated from 6600 K"
+                else none
+          match structural with
+          | some m => .fail s!"step {st}: {m} (impl {ans})"
+          | none => rgbwSeqGo rest impl' (c.useTemperature t (r, g, b)) (tag :: tags)
+        | _ => .fail s!"step {st}: answer {ans}"
+      | some _, [] => .fail "fewer answers than steps"
+      | none, _ => .badCase "rgbwseq t"
+    | "c" =>
+      match natTriple body, impl with
+      | some (r, g, b), ans :: impl' =>
+        match (ans.take 1).toString, ((ans.drop 1).toString.splitOn ",").map String.toNat? with
+        | "C", [some a0, some a1, some a2, some a3] =>
+          match convContract c r g b (a0, a1, a2, a3) with
+          | some m => .fail s!"step {st}: {m} (impl {ans})"
+          | none =>
+            if c.convert r g b = (a0, a1, a2, a3) then rgbwSeqGo rest impl' c tags
+            else
+              let m := c.convert r g b
+              .fail s!"step {st}: model={m.1},{m.2.1},{m.2.2.1},{m.2.2.2} impl={ans}"
+        | _, _ => .fail s!"step {st}: answer {ans}"
+      | some _, [] => .fail "fewer answers than steps"
+      | none, _ => .badCase "rgbwseq c"
+    | _ => .badCase s!"rgbwseq step {st}"
+
+def opRgbwSeq (args impl : List String) : Verdict := rgbwSeqGo args impl Conv.zero []
+
 def opRgbwRow (args impl : List String) : Verdict :=
   match args with
   | m :: rest =>
